@@ -23,7 +23,7 @@ KINDS = ["D", "E", "C", "B", "F", "X", "G"]     # directive, odd directive, comm
 def render(kinds, rng=None):
     out = []
     nf = nd = 0
-    odd = ["###", "##", "## spaced out", "###!x", "##gff-version 3"]
+    odd = ["###", "##", "## spaced out", "###!x", "##gff-version 3", "##FASTA-index genome.fa.fai", "##FASTAfile x", "##FASTA "]
     for k in kinds:
         if k == "D":
             nd += 1
